@@ -34,6 +34,7 @@ func judge(b *built, chunks []*rag.Chunk, layoutView bool) judged {
 	perChunk := make([][]string, n)
 	var observed []string
 	var prevPath []string
+	var prevChain []int
 	var stream []byte // the concatenated chunk texts without white space (for the layout view: with the section headings where they are introduced)
 	for i, c := range chunks {
 		toks := scanTokens(c.Text)
@@ -44,10 +45,20 @@ func judge(b *built, chunks []*rag.Chunk, layoutView bool) judged {
 				inText[t] = true
 			}
 			p := c.Metadata.SectionPath
+			// the section instance the chunk's content belongs to (two sections may carry the same heading text)
+			var chain []int
+			for _, t := range toks {
+				if ei, ok := b.tokElem[t]; ok {
+					chain = b.elems[ei].chain
+					break
+				}
+			}
 			cp := 0
-			for cp < len(p) && cp < len(prevPath) && p[cp] == prevPath[cp] {
+			for cp < len(p) && cp < len(prevPath) && p[cp] == prevPath[cp] &&
+				(chain == nil || prevChain == nil || cp >= len(chain) || cp >= len(prevChain) || chain[cp] == prevChain[cp]) {
 				cp++
 			}
+			prevChain = chain
 			for _, h := range p[cp:] {
 				for _, t := range scanTokens(h) {
 					if !inText[t] {
@@ -77,7 +88,7 @@ func judge(b *built, chunks []*rag.Chunk, layoutView bool) judged {
 		for _, u := range b.units {
 			whole := true
 			for _, t := range u.toks {
-				if count[t] != 1 {
+				if count[t] != b.expCount[t] {
 					whole = false // lost / repeated words are the cover clause's business
 					break
 				}
@@ -131,6 +142,7 @@ func judge(b *built, chunks []*rag.Chunk, layoutView bool) judged {
 
 	// ---- pages and section path, per chunk -------------------------------------------------
 	maxDepth := 0
+	occ := map[string]int{} // occurrences of a word seen so far in the chunk texts (the n-th occurrence belongs to the n-th element that has the word)
 	for i, c := range chunks {
 		toks := perChunk[i]
 		if len(c.Metadata.SectionPath) > maxDepth {
@@ -139,7 +151,16 @@ func judge(b *built, chunks []*rag.Chunk, layoutView bool) judged {
 		var els []int // distinct elements this chunk has content of, in order of first appearance
 		inEls := map[int]bool{}
 		for _, t := range toks {
-			if ei, ok := b.tokElem[t]; ok && !inEls[ei] {
+			owners, ok := b.tokElems[t]
+			if !ok {
+				continue
+			}
+			k := occ[t]
+			occ[t]++
+			if k >= len(owners) {
+				k = len(owners) - 1
+			}
+			if ei := owners[k]; !inEls[ei] {
 				inEls[ei] = true
 				els = append(els, ei)
 			}
@@ -306,9 +327,11 @@ func (b *built) cover(observed []string) (verdict, bool) {
 		}
 	}
 	var lost []string
+	done := map[string]bool{}
 	for _, t := range b.expected {
-		if count[t] == 0 {
+		if count[t] < b.expCount[t] && !done[t] {
 			lost = append(lost, t)
+			done[t] = true
 		}
 	}
 	if len(lost) > 0 {
@@ -316,14 +339,16 @@ func (b *built) cover(observed []string) (verdict, bool) {
 		return verdict{"lost:" + kindClass[e.k], fmt.Sprintf("%d of %d words missing from the chunk texts; first: %s of the %s on page %d; all: %s", len(lost), len(b.expected), lost[0], kindName[e.k], e.pageNo, abbrev(lost))}, false
 	}
 	var dup []string
+	done = map[string]bool{}
 	for _, t := range b.expected {
-		if count[t] > 1 {
+		if count[t] > b.expCount[t] && !done[t] {
 			dup = append(dup, t)
+			done[t] = true
 		}
 	}
 	if len(dup) > 0 {
 		e := b.elems[b.tokElem[dup[0]]]
-		return verdict{"repeated:" + kindClass[e.k], fmt.Sprintf("%d words occur more than once; first: %s of the %s on page %d (%d times); all: %s", len(dup), dup[0], kindName[e.k], e.pageNo, count[dup[0]], abbrev(dup))}, false
+		return verdict{"repeated:" + kindClass[e.k], fmt.Sprintf("%d words occur more often than in the document; first: %s of the %s on page %d (%d times); all: %s", len(dup), dup[0], kindName[e.k], e.pageNo, count[dup[0]], abbrev(dup))}, false
 	}
 	// same multiset, different order: name the first displaced element
 	for i := range observed {
